@@ -183,3 +183,21 @@ Theorem C04_small_collection_exec_capacity_never_lost : forall log2 os s sp s' t
     forall key n n', cc_nfree smg sg_ns sg_free s key = Some n -> cc_nfree smg sg_ns sg_free s' key = Some n' -> list_has_no_allocations sp' key -> n <= n'.
 Proof. exact scoll_capacity_never_lost. Qed.
 Print Assumptions C04_small_collection_exec_capacity_never_lost.
+
+(* memory_pool_collection::reserve (all three list types): the model's reserve -- reserve_memory and insert -- is accepted by the Spec,
+   and when it succeeds the reserved range has been handed to the pool of that size (nothing is taken from the block and lost) *)
+Theorem C04_collection_exec_reserve_reaches_the_pool : forall log2 s sp size cap answer s2 ok evs, UCPR s sp -> 0 <= cap ->
+  (forall addr, answer = Some addr -> CWB sp addr (ar_next (cc_ar _ s))) -> uc_reserve log2 s size cap answer = Some (s2, ok, evs) ->
+  exists sp2, acc_evs sp evs = Some sp2 /\ UCPR s2 sp2 /\ (ok = true -> exists m, In (EIns (coll_bkt log2 size) m cap) evs).
+Proof. exact ucoll_reserve_refines. Qed.
+Print Assumptions C04_collection_exec_reserve_reaches_the_pool.
+Theorem C04_ordered_collection_exec_reserve_reaches_the_pool : forall log2 s sp size cap answer s2 ok evs, OCPR s sp -> 0 <= cap ->
+  (forall addr, answer = Some addr -> CWB sp addr (ar_next (cc_ar _ s))) -> oc_reserve log2 s size cap answer = Some (s2, ok, evs) ->
+  exists sp2, acc_evs sp evs = Some sp2 /\ OCPR s2 sp2 /\ (ok = true -> exists m, In (EIns (coll_bkt log2 size) m cap) evs).
+Proof. exact ocoll_reserve_refines. Qed.
+Print Assumptions C04_ordered_collection_exec_reserve_reaches_the_pool.
+Theorem C04_small_collection_exec_reserve_reaches_the_pool : forall log2 s sp size cap answer s2 ok evs, SCPR s sp -> 0 <= cap ->
+  (forall addr, answer = Some addr -> CWB sp addr (ar_next (cc_ar _ s))) -> sc_reserve log2 s size cap answer = Some (s2, ok, evs) ->
+  exists sp2, acc_evs sp evs = Some sp2 /\ SCPR s2 sp2 /\ (ok = true -> exists m, In (EIns (coll_bkt_me 1%N log2 size) m cap) evs).
+Proof. exact scoll_reserve_refines. Qed.
+Print Assumptions C04_small_collection_exec_reserve_reaches_the_pool.
